@@ -305,6 +305,17 @@ def main():
         print(out[-6000:])
         print("INFRA property=%s: the tree does not compile against the harness (not a verdict)" % pid)
         return 2
+    extra_bins = {}
+    for st in spec["stages"]:
+        xp = st.get("pkg")
+        if xp and xp != spec["pkg"] and xp not in extra_bins and tier in st.get("tiers", ("quick", "thorough")):
+            xb = os.path.join(work, "props.%s.test" % xp)
+            ok, out, _ = build(xp, xb)
+            if not ok:
+                print(out[-6000:])
+                print("INFRA property=%s: the tree does not compile against the harness (not a verdict)" % pid)
+                return 2
+            extra_bins[xp] = xb
     racebin = None
     if need_race:
         racebin = os.path.join(work, "props.race.test")
@@ -382,7 +393,8 @@ def main():
             seed = seed_for(vseed, si * 64 + sh)
             stats_file = os.path.join(work, name + ".stats.json")
             replay_file = os.path.join(work, name + ".replay.json")
-            b = racebin if st.get("race") else binpath
+            b = racebin if st.get("race") else extra_bins.get(st.get("pkg"), binpath)
+            stage_dir = os.path.join(HARNESS, "props", st.get("pkg") or spec["pkg"])
             cmd = [b, "-test.run", "^%s$" % st["test"], "-test.count=1", "-test.timeout=%ds" % tmo]
             requested = None
             if not st.get("plain"):
@@ -400,7 +412,7 @@ def main():
                 env["GOMAXPROCS"] = str(st["gomaxprocs"])
             if st.get("plain") and n:
                 env["VERIF_N"] = str(max(1, int(n * a.scale)))
-            procs.append((si, st, Proc(name, cmd, env, pkgdir, tmo, replay_file, stats_file,
+            procs.append((si, st, Proc(name, cmd, env, stage_dir, tmo, replay_file, stats_file,
                                        os.path.join(work, name + ".log"), requested)))
     par = spec.get("parallel", NCPU if tier == "thorough" else 4)
     run_procs([p for _, _, p in procs], par)
@@ -508,7 +520,7 @@ def run_fuzz(pid, spec, st, base_env, work, scale):
 def setup():
     ensure_gosum()
     os.makedirs(BUILD, exist_ok=True)
-    pkgs = sorted(set(s["pkg"] for s in CHECKS.values()))
+    pkgs = sorted(set(s["pkg"] for s in CHECKS.values()) | set(st["pkg"] for s in CHECKS.values() for st in s["stages"] if st.get("pkg")))
     rc = 0
     for pkg in pkgs:
         out = os.path.join(BUILD, "setup", pkg + ".test")
